@@ -73,6 +73,11 @@ Members ==
      <<VLst(<<VNaN(6), D1("a", VNaN(7))>>), VLst(<<VNaN(8), D1("a", NpS("float32", VNaN(9)))>>)>>} ELSE {})
 
 Kinds == {"l", "t", "m", "M", "a", "S", "ll", "mt", "lm"} \cup (IF Deep THEN {"F", "tl", "mm", "aa", "rev"} ELSE {})
+\* typed carriers: n int64 cells of an array / a Series / a one-column frame, the n labels of a Series, the n column labels of a
+\* one-row frame - for the members that are integers
+TypedKinds == {"ai", "Si", "Fi", "Sx", "Fc"}
+IntMembers == {<<I(0), I(9)>>} \cup (IF Deep THEN {<<I(9), I(0)>>, <<I(1), I(2)>>} ELSE {})
+Zeros(m) == [i \in 1..m |-> I(0)]
 
 Key(i) == IF i < 10 THEN "k0" \o ToString(i) ELSE "k" \o ToString(i)
 Keyed(q) == [i \in 1..Len(q) |-> <<Key(i), q[i]>>]
@@ -92,6 +97,11 @@ Box(c, q) ==
       [] c = "lm" -> VLst(<<VDict(Keyed(q))>>)
       [] c = "mm" -> VDict(<<<<"a", VDict(Keyed(q))>>>>)
       [] c = "aa" -> VArr("object", <<1>>, <<VLst(q)>>)
+      [] c = "ai" -> VArr("int64", <<Len(q)>>, q)
+      [] c = "Si" -> VSer("int64", RI(Len(q)), q)
+      [] c = "Fi" -> VFrm("int64", RI(Len(q)), <<VStr("a")>>, q)
+      [] c = "Sx" -> VSer("int64", q, Zeros(Len(q)))
+      [] c = "Fc" -> VFrm("int64", RI(1), q, Zeros(Len(q)))
       [] c = "rev" -> IF Len(q) = 1 THEN VDict(Keyed(q)) ELSE VDictO(Rev(Len(q)), Keyed(q))   \* a dict filled from the last key to the first
 \* the members of x and of y
 MX(i) == mem[1]
@@ -104,7 +114,7 @@ XX == XOf(IF kind = "rev" THEN "m" ELSE kind, mem, n)
 
 Differs == p # 0 /\ ~EqC(mem[1], mem[2])
 
-Init == /\ kind \in Kinds /\ mem \in Members /\ n \in Widths /\ p \in 0..n
+Init == /\ ((kind \in Kinds /\ mem \in Members) \/ (kind \in TypedKinds /\ mem \in IntMembers)) /\ n \in Widths /\ p \in 0..n
         /\ k = 0 /\ memo = {} /\ law = TRUE /\ mech = TRUE
 
 \* ---- the walk over the members ---------------------------------------------------------------------
@@ -153,8 +163,8 @@ WidePinned == ~Judge \/ LET x == XX  y == Y  nx == Norm(x)  ny == Norm(y)  pin =
     /\ ((~Differs /\ Plain(nx) /\ Plain(ny)) => pin = "T")
     /\ (pin = "T" => ~Differs)
     /\ ClF(x, y, nx, ny, pin) = ClauseIfFC(x, y)
-\* ... and so is the reason: the place of the difference is the place where m and alt differ
-WideAt == ~Judge \/ (Differs => LET nx == Norm(XX)  ny == Norm(Y) IN
+\* ... and so is the reason: the place of the difference is the place where m and alt differ (for labels: the carrier)
+WideAt == ~Judge \/ ((Differs /\ kind \notin {"Sx", "Fc"}) => LET nx == Norm(XX)  ny == Norm(Y) IN
                                    At(nx, ny) = AtC(mem[1], mem[2]) /\ ClauseIfT(nx, ny) = ClauseIfTC(mem[1], mem[2]))
 \* the position does not matter (every position against the first one)
 PositionFree == ~Judge \/ (p = 1 => LET nx == Norm(XX)  pin == Pin(nx, Norm(Y)) IN
